@@ -21,6 +21,9 @@ REPO = os.environ.get("VERIF_REPO", "/repo")
 VERIF = os.path.dirname(os.path.dirname(os.path.abspath(__file__)))
 BUILD = os.path.join(VERIF, ".build")
 OBJ = os.path.join(BUILD, "obj")
+# linked engines of runs against a scratch copy of the repository (VERIF_REPO, self-tests) live in their own directory,
+# so that such a run can never exchange a binary under a check that is running against /repo at the same time
+BIN = os.path.join(BUILD, "bin" if REPO == "/repo" else "bin-" + hashlib.md5(REPO.encode()).hexdigest()[:8])
 CXX = os.environ.get("VERIF_CXX", "g++")
 JOBS = int(os.environ.get("VERIF_JOBS", str(os.cpu_count() or 8)))
 
